@@ -35,7 +35,7 @@ def _round(mode_z3, pyfn):
             else:
                 _ret(st, ins, pyfn(x))
             return
-        _ret(st, ins, simp_fp(z3.fpRoundToIntegral(mode_z3, x), 64))
+        _ret(st, ins, eng.fpa(st, 'round_' + fn['name'].split('.')[-1], simp_fp(z3.fpRoundToIntegral(mode_z3, x), 64), x))
     return h
 
 
